@@ -173,7 +173,7 @@ func verifC04_Member() {
 // qualifies (also after an earlier report did qualify).
 func verifC04_Service() {
 	static := vMakeServers(2, false)
-	sp := &ServerPool{spec: &ServerPoolSpec{Servers: static, ServerTags: []string{"blue"}, LoadBalance: &LoadBalanceSpec{Policy: LoadBalancePolicyRoundRobin}}}
+	sp := &ServerPool{spec: &ServerPoolSpec{Servers: static, ServerTags: []string{"blue", "canary"}, LoadBalance: &LoadBalanceSpec{Policy: LoadBalancePolicyRoundRobin}}}
 	verifInitMaps(sp) // maps a bypassed constructor would have made
 	names := []string{"i0", "i1"}
 	prevTagged := 0
@@ -185,7 +185,11 @@ func verifC04_Service() {
 		for i := 0; i < ni; i++ {
 			inst := &serviceregistry.ServiceInstanceSpec{InstanceID: names[i], Address: "10.1.0.1", Port: uint16(8000 + 10*round + i), Weight: int(verifInt("iweight", 0, 100))}
 			if verifBool("tagged") {
-				inst.Tags = []string{"x", "blue"}
+				// an instance qualifies when it carries one of the pool's tags - or several
+				inst.Tags = [][]string{{"x", "blue"}, {"canary"}, {"blue", "x", "canary"}}[verifChoose("instanceTags", 3)]
+				if len(inst.Tags) == 3 {
+					verifCover("instance-with-several-matching-tags")
+				}
 				urls[tagged] = inst.URL()
 				tagged++
 			} else {
